@@ -1189,7 +1189,7 @@ class Model(oi.Model):
         return new
 
     def __deepcopy__(self, memo):
-        return self._clone_into(Model())
+        return self._clone_into(type(self)())
 
     def __copy__(self):
         return self.__deepcopy__({})
@@ -1234,3 +1234,27 @@ class Model(oi.Model):
 
     def __str__(self):
         return "symlp.Model(%d vars, %d rows)" % (len(self._variables), len(self._constraints))
+
+
+# --------------------------------------------------------------------------- a second interface (solver switching)
+class TwinModel(Model):
+    """the same contract stub presented as *another* optlang interface, so that `model.solver = <other interface>` runs
+    cobrapy's switching code (Model.solver setter -> interface.Model.clone) on symbolic paths"""
+
+    @property
+    def interface(self):
+        return TWIN
+
+
+def _make_twin():
+    import types
+    tw = types.ModuleType("symlp_twin")
+    me = sys.modules[__name__]
+    for n in dir(me):
+        if not n.startswith("__"):
+            setattr(tw, n, getattr(me, n))
+    tw.Model = TwinModel
+    return tw
+
+
+TWIN = _make_twin()
